@@ -30,7 +30,7 @@ def shards(tier, seed):
 	for i in range(n):
 		out.append(dict(name=f'struct-{i}', kind='struct', sub=i, rounds=25 if tier == 'quick' else 150, maxsize=20000 if tier == 'quick' else 100000))
 	out.append(dict(name='widths', kind='widths'))
-	out.append(dict(name='bulk-widths', kind='bulk', n=60 if tier == 'quick' else 600))
+	out.append(dict(name='bulk-widths', kind='bulk', n=60 if tier == 'quick' else 600, env={'OMP_NUM_THREADS': '16'}))
 	out.append(dict(name='endian', kind='endian', n=12 if tier == 'quick' else 100))
 	if tier == 'thorough':
 		out.append(dict(name='huge', kind='huge'))
@@ -160,13 +160,31 @@ def run_shard(sh, ctx):
 		import gambit.metric as gm
 		from gambit.sigs.base import SignatureArray, SignatureList
 		rng = random.Random(f'C02-bulk-{ctx.seed}')
+		# thousands of references in one concatenated collection, many threads, repeated: every cell is still the exact ratio
+		for n_ in (1025, 3000):
+			sets_ = [sorted(rng.sample(range(300), rng.randint(0, 9))) for _ in range(n_)]
+			sa_ = SignatureArray([np.array(s_, dtype='u4') for s_ in sets_], None, dtype=np.dtype('u4'))
+			for rep in range(4):
+				q_ = rng.choice(sets_)
+				got_ = gm.jaccarddist_array(np.array(q_, dtype=rng.choice(['u2', 'u4', 'i8'])), sa_)
+				ctx.count('bulk_large_collection_calls')
+				for j, r in enumerate(sets_):
+					exp = J.expected_bits(*J.dist_su(set(q_), set(r)))
+					ctx.evals += 1
+					if J.bits(got_[j]) != exp:
+						ctx.violation('bulk-dist-bits', f'{n_} references in one SignatureArray (16 threads): cell {j} = {float(got_[j])!r} expected bits {exp:#x}', dict(query=q_, ref=r, n=n_, repetition=rep)); break
 		for t in range(sh['n']):
 			rdt = rng.choice(['u2', 'u4', 'i2', 'i4'])
 			qdt = rng.choice([d for d in M.DTYPES if M.maxval(d) > M.maxval(rdt)])
 			top = M.maxval(rdt)
 			refs = [sorted(set(rng.sample(range(0, 60), rng.randint(0, 12))) | ({top} if rng.random() < 0.3 else set())) for _ in range(rng.randint(1, 6))]
-			shift = top + 1
-			q = sorted(set(rng.sample(range(0, 60), rng.randint(1, 12))) | {x + shift for x in rng.sample(range(0, 60), 4)} | ({top} if rng.random() < 0.5 else set())) if t % 5 else []
+			# values of the query that the references' type cannot hold: beyond its signed range (top + 1) and, where the query type
+			# allows, beyond its unsigned range too (2^bits); some of them are copies of reference elements moved up by that amount, so
+			# that a silent wrap-around changes the intersection and not only the identity of an element
+			bits = np.dtype(rdt).itemsize * 8
+			shift = 2 ** bits if M.maxval(qdt) >= 2 ** bits + 60 and rng.random() < 0.7 else top + 1
+			twins = [x for x in (refs[0][:2] + refs[-1][:1]) if x < 60]
+			q = sorted(set(rng.sample(range(0, 60), rng.randint(1, 12))) | {x + shift for x in rng.sample(range(0, 60), 3) + twins} | ({top} if rng.random() < 0.5 else set())) if t % 5 else []
 			refs = refs + [[]]   # always one empty reference: (empty, empty) must be 0, (non-empty, empty) must be 1
 			qa = np.array(q, dtype=qdt)
 			rarrs = [np.array(r, dtype=rdt) for r in refs]
